@@ -5,7 +5,7 @@ SRC = "/tmp/seeds"
 DST = os.path.join(os.path.dirname(os.path.dirname(os.path.abspath(__file__))), "seeded")
 os.makedirs(DST, exist_ok=True)
 for d in sorted(os.listdir(SRC)):
-    if not re.fullmatch(r"C\d\d_\d", d):
+    if not re.fullmatch(r"C\d\d_\w+", d):
         continue
     sd = os.path.join(SRC, d)
     cf = os.path.join(sd, "confirm.txt")
